@@ -16,57 +16,58 @@ theorem disable_dead (s : State) (i j : Nat) (h : (s.obj j).alive = false) : ((d
   · subst hij; rw [disable_alive]; exact h
   · rw [disable_obj_other s i j hij]; exact h
 
-theorem act_fields (s : State) (a : Act) : (act s a).1.log = s.log ∧ (act s a).1.nObjs = s.nObjs := by
-  cases a with
-  | init i ms o =>
-    simp only [act, initTimer]
-    split
-    · exact ⟨rfl, rfl⟩
-    · exact ⟨by simp [disable_log], by simp [disable_nObjs]⟩
-  | enable i =>
-    simp only [act, enable]
-    split; · exact ⟨rfl, rfl⟩
-    split; · exact ⟨rfl, rfl⟩
-    split; · exact ⟨rfl, rfl⟩
-    exact ⟨rfl, rfl⟩
-  | disable i => exact ⟨disable_log s i, disable_nObjs s i⟩
-  | destroy i =>
-    simp only [act, destroy]
-    split
-    · exact ⟨rfl, rfl⟩
-    · exact ⟨by simp [disable_log], by simp [disable_nObjs]⟩
+/-- what every call leaves alone: the callback log; object serials only grow; a destroyed object stays destroyed -/
+def Quiet (s s' : State) : Prop :=
+  s'.log = s.log ∧ s.nObjs ≤ s'.nObjs ∧ ∀ j, j < s.nObjs → (s.obj j).alive = false → (s'.obj j).alive = false
 
-theorem act_dead (s : State) (a : Act) (j : Nat) (h : (s.obj j).alive = false) : ((act s a).1.obj j).alive = false := by
-  cases a with
-  | init i ms o =>
-    simp only [act, initTimer]
+theorem act_quiet (s : State) (a : Act) : Quiet s (act s a).1 := by
+  refine act_ind Quiet ?_ ?_ ?_ ?_ ?_ ?_ ?_ ?_ s a
+  · exact fun s => ⟨rfl, Nat.le_refl _, fun _ _ h => h⟩
+  · intro a b c h1 h2
+    exact ⟨h2.1.trans h1.1, Nat.le_trans h1.2.1 h2.2.1, fun j hj hd => h2.2.2 j (Nat.lt_of_lt_of_le hj h1.2.1) (h1.2.2 j hj hd)⟩
+  · intro s i
+    exact ⟨disable_log s i, Nat.le_of_eq (disable_nObjs s i).symm, fun j _ h => disable_dead s i j h⟩
+  · intro s i ms o
+    simp only [initTimer]
     split
-    · exact h
+    · exact ⟨rfl, Nat.le_refl _, fun _ _ h => h⟩
     · rename_i ha
+      refine ⟨by simp [disable_log], by simp [disable_nObjs], ?_⟩
+      intro j _ h
       by_cases hij : j = i
       · subst hij; simp [h] at ha
       · simp only [obj_setObj, hij, ↓reduceIte]; exact disable_dead s i j h
-  | enable i =>
-    simp only [act, enable]
-    split; · exact h
-    split; · exact h
-    split; · exact h
+  · intro s i
+    simp only [enable]
+    split; · exact ⟨rfl, Nat.le_refl _, fun _ _ h => h⟩
+    split; · exact ⟨rfl, Nat.le_refl _, fun _ _ h => h⟩
+    split; · exact ⟨rfl, Nat.le_refl _, fun _ _ h => h⟩
     rename_i ha _ _
+    refine ⟨rfl, Nat.le_refl _, ?_⟩
+    intro j _ h
     by_cases hij : j = i
     · subst hij; simp [h] at ha
     · simp [State.obj, State.setObj, hij]; exact h
-  | disable i => exact disable_dead s i j h
-  | destroy i =>
-    simp only [act, destroy]
+  · intro s i
+    simp only [destroy]
     split
-    · exact h
-    · by_cases hij : j = i
+    · exact ⟨rfl, Nat.le_refl _, fun _ _ h => h⟩
+    · refine ⟨by simp [disable_log], by simp [disable_nObjs], ?_⟩
+      intro j _ h
+      by_cases hij : j = i
       · subst hij; simp
       · simp only [obj_setObj, hij, ↓reduceIte]; exact disable_dead s i j h
+  · intro s sc
+    refine ⟨rfl, Nat.le_succ _, ?_⟩
+    intro j hj h
+    have : j ≠ s.nObjs := Nat.ne_of_lt hj
+    simp only [newObjS, State.obj, State.setObj, this, ↓reduceIte]; exact h
+  · intro s p k
+    exact ⟨rfl, Nat.le_refl _, fun _ _ h => h⟩
 
 theorem act_deadQuiet (s : State) (a : Act) (j n : Nat) (h : DeadQuiet j n s) : DeadQuiet j n (act s a).1 := by
-  have hf := act_fields s a
-  exact ⟨hf.2 ▸ h.exists_, act_dead s a j h.dead, by rw [hf.1]; exact h.quiet⟩
+  have hf := act_quiet s a
+  exact ⟨Nat.lt_of_lt_of_le h.exists_ hf.2.1, hf.2.2 j h.exists_ h.dead, by rw [hf.1]; exact h.quiet⟩
 
 theorem runScript_deadQuiet (s : State) (as : List Act) (j n : Nat) (h : DeadQuiet j n s) :
     DeadQuiet j n (runScript s as) := by
@@ -78,23 +79,6 @@ theorem take_cons_of_lt {α} (e : α) (l : List α) (n : Nat) (hn : n ≤ l.leng
     (e :: l).take ((e :: l).length - n) = e :: l.take (l.length - n) := by
   have : (e :: l).length - n = (l.length - n) + 1 := by simp; omega
   rw [this]; rfl
-
-/-- the state in which the callback script of record `r` starts (timers re-armed/popped, event logged,
-one-shot flag reset) -/
-def fireHead (s : State) (r : Rec) : State :=
-  let t := s.passNow.getD s.now
-  let rest := s.timers.filter (fun q => q.tok != r.tok)
-  let timers := if r.oneshot then rest else { r with expired := r.expired + r.interval, k := r.k + 1 } :: rest
-  let o := s.obj r.owner
-  let ev : Fired := { obj := r.owner, passNow := t, base := r.base, n := r.k + 1, interval := r.interval,
-                      okAtCall := o.alive && o.enabled, deadline := r.expired,
-                      prevDeadline := s.lastDeadline, oneshot := r.oneshot }
-  let s0 : State := { s with timers := timers, log := ev :: s.log, lastDeadline := r.expired }
-  if o.oneshot then s0.setObj r.owner { o with enabled := false, token := none } else s0
-
-theorem fire_eq (s : State) (r : Rec) : fire s r = runScript (fireHead s r) (s.obj r.owner).script := by
-  unfold fire onEvent fireHead
-  rfl
 
 theorem fireHead_facts (s : State) (r : Rec) :
     (fireHead s r).nObjs = s.nObjs ∧ (∃ ev : Fired, ev.obj = r.owner ∧ (fireHead s r).log = ev :: s.log) ∧
@@ -108,7 +92,7 @@ theorem fireHead_facts (s : State) (r : Rec) :
 theorem runScript_log (x : State) (as : List Act) : (runScript x as).log = x.log := by
   induction as generalizing x with
   | nil => rfl
-  | cons a as ih => rw [runScript, ih, (act_fields x a).1]
+  | cons a as ih => rw [runScript, ih, (act_quiet x a).1]
 
 theorem step_deadQuiet (s : State) (st : Step) (j n : Nat) (hi : Inv s) (hv : valid s st = true)
     (hn : n ≤ s.log.length) (h : DeadQuiet j n s) : DeadQuiet j n (step s st) ∧ n ≤ (step s st).log.length := by
@@ -117,8 +101,8 @@ theorem step_deadQuiet (s : State) (st : Step) (j n : Nat) (hi : Inv s) (hv : va
     refine ⟨⟨?_, ?_, h.quiet⟩, hn⟩
     · show j < s.nObjs + 1; exact Nat.lt_succ_of_lt h.exists_
     · have : j ≠ s.nObjs := Nat.ne_of_lt h.exists_
-      simp only [step, State.obj, State.setObj, this, ↓reduceIte]; exact h.dead
-  | api a => exact ⟨act_deadQuiet s a j n h, by simp only [step]; rw [(act_fields s a).1]; exact hn⟩
+      simp only [step, newObjS, State.obj, State.setObj, this, ↓reduceIte]; exact h.dead
+  | api a => exact ⟨act_deadQuiet s a j n h, by simp only [step]; rw [(act_quiet s a).1]; exact hn⟩
   | advance d => exact ⟨⟨h.exists_, h.dead, h.quiet⟩, hn⟩
   | beginPass => exact ⟨⟨h.exists_, h.dead, h.quiet⟩, hn⟩
   | endPass => exact ⟨⟨h.exists_, h.dead, h.quiet⟩, hn⟩
